@@ -120,7 +120,8 @@ impl<'a> Future for StatusFut<'a> {
                     zx_rt::log(&format!("proc_reap p{} code={}", id, code));
                     zx_rt::bump();
                 }
-                Poll::Ready(Ok(ExitStatus::from_raw(code << 8)))
+                // codes >= 1000 in the schedule mean "killed by signal (code - 1000)"
+                Poll::Ready(Ok(if code >= 1000 { ExitStatus::from_raw(code - 1000) } else { ExitStatus::from_raw(code << 8) }))
             }
             PState::Killed => {
                 if !p.reaped {
